@@ -41,7 +41,7 @@ CONFIRM_FRESH_PROCESS = True  # hidden process state is the subject: a failure i
 
 def _spec_inputs(k):
     """Deterministic solver arguments for spec k."""
-    shapes = [(6, 5), (8, 8), (7, 9), (9, 4), (12, 12)]
+    shapes = [(6, 5), (8, 8), (7, 9), (9, 4), (12, 12), (16, 16)]
     table = [
         # shape, modes, precision, footprint, levels, analytic, halo
         (0, (4, 4), "double", False, 3, False, 0.0),
@@ -75,6 +75,9 @@ def _spec_inputs(k):
         # single-vs-double clause only, which storage rounding satisfies at any growth
         (1, (8, 8), "double", True, [1, 4], False, 0.0),
         (1, (8, 8), "single", True, [1, 4], False, 0.0),
+        # 16x16 cells with the default halo = 48x48 padded = 2303 non-mean modes: more than a thousand per thread for 2
+        # threads, with a remainder (work split into per-thread blocks must not lose the tail)
+        (5, (512, 512), "double", False, [2, 4], False, None),
     ]
     si, modes, prec, fp, lv, ana, halo = table[k]
     ny, nx = shapes[si]
@@ -98,13 +101,13 @@ def _spec_inputs(k):
         u, K = u * (1.0 + 1e-8), K * (1.0 - 2e-8)
     if k in (14, 15):
         q = (q + 0.8) * 1e-8
-    cx, cy = (9.0, 7.5) if k in (18, 19) else (1.4, 1.2) if k in (20, 21) else (240.0, 240.0 if k in (16, 17) else 180.0)
+    cx, cy = (9.0, 7.5) if k in (18, 19) else (1.4, 1.2) if k in (20, 21) else (240.0, 240.0 if k in (16, 17, 22) else 180.0)
     return dict(q=q, z=z, profiles=(u, v, K, 0.7 * K, 1.2 * K), domain=(cx * nx * dscale, cy * ny), levels=lv, modes=modes,
                 meas_pt=(cx * (nx // 3), cy * (ny // 2)) if fp else (0.0, 0.0), bg=0.0 if k in (14, 15) else 1.0, footprint=fp, analytic=ana,
                 halo=halo, precision=prec)
 
 
-NSPEC = 22
+NSPEC = 23
 _QBUF = {}
 _PERSIST = {}
 
@@ -112,7 +115,7 @@ _PERSIST = {}
 class ArgumentMutated(Exception):
     pass
 TWIN = {1: 0, 3: 2, 15: 14, 19: 18, 21: 20}  # single-precision spec -> its double-precision twin
-SHAPE_OF = [0, 0, 1, 1, 2, 2, 3, 1, 3, 0, 0, 0, 0, 2, 1, 1, 4, 4, 1, 1, 1, 1]
+SHAPE_OF = [0, 0, 1, 1, 2, 2, 3, 1, 3, 0, 0, 0, 0, 2, 1, 1, 4, 4, 1, 1, 1, 1, 5]
 HIGH_GROWTH = (18, 19, 20, 21)  # rounding of the double-precision result is ~eps*e^10, not eps: compared at (1e-12 + 4096 eps e^11.1) = 6e-8 across threads
 
 
